@@ -200,7 +200,8 @@ pub struct Expected {
 pub fn expected(sc: &Scenario) -> Result<Expected, String> {
     let cmds = family(sc);
     let chars = String::from_utf8_lossy(&sc.stdin).chars().count() as u64;
-    let pf = reflang::preflight(&cmds, &sc.stdin, 20 * chars + 200, 256, false);
+    // the copy loops leave two junk values per character behind
+    let pf = reflang::preflight_mem(&cmds, &sc.stdin, 20 * chars + 200, 256, false, 4 * chars as usize + 1000);
     if pf.halt != Halt::Ended(End::End) {
         return Err(format!("model did not finish the copy program: {:?}", pf.halt));
     }
